@@ -138,6 +138,12 @@ EXTRA_TEXTS = ['//', '/A//B', 'A/', '\n', 'N1[X]\n', '/A\n/N1', 'N1-0', 'N100', 
                'ISA16', 'ISA16-2', 'N1é', 'É01', 'N1[É]01', 'N1-٣']
 
 
+def broke(res, name, detail):
+    """record a broken correspondence (at most 20 examples per name)"""
+    if sum(1 for b in res.broken if b[0] == name) < 20:
+        res.broke(name, detail)
+
+
 def impl_path(text):
     from pyx12.path import X12Path
     from pyx12.errors import X12PathError
@@ -174,7 +180,6 @@ def parse_model_path(out):
 
 
 def run_paths(res, tier, built):
-    from pyx12.path import X12Path
     rnd = random.Random(common.seed() * 7919 + 17)
     cases = list(grammar_cases(tier, rnd))
     texts = [path_text(rel, [l for l, _ in loops], seg, q, e, c) for (rel, loops, seg, q, e, c) in cases]
@@ -239,7 +244,7 @@ def run_paths(res, tier, built):
                         res.violation('pred:empty-differs', 'X12Path(%r).empty() = %r' % (text, got[3]), dict(rep, required=want_empty))
         if mod is not None and mod != got:
             if ok:
-                res.broke('correspondence:Path.parse', 'text=%r impl=%r model=%r' % (text, got, mod))
+                broke(res, 'correspondence:Path.parse', 'text=%r impl=%r model=%r' % (text, got, mod))
         # equality against the previous accepted in-grammar case
         if obj is not None and kind == 'ok' and not ambiguous:
             if prev is not None and i % 3 == 0:
@@ -253,6 +258,14 @@ def run_paths(res, tier, built):
                 eq_lines.append(common.line('Q17', text, ptext))
                 eq_meta.append((text, ptext, impl_eq))
             prev = (text, obj, fields)
+            if i % 11 == 0:
+                # `$` also matches before one final newline: textually different, possibly equal paths (model only)
+                t2 = text + '\n'
+                o2 = impl_path(t2)[1]
+                if o2 is not None:
+                    res.count()
+                    eq_lines.append(common.line('Q17', text, t2))
+                    eq_meta.append((text, t2, obj == o2))
             if len(ids) > 0 and i % 7 == 0:
                 root = path_text(rel, ids[:-1], None, None, None, None)
                 robj = impl_path(root)[1] if root != '' else None
@@ -278,15 +291,15 @@ def run_paths(res, tier, built):
                 res.violation('pred:literal-expectation', 'X12Path(%r) -> %r, expected %r' % (text, got, want),
                               {'kind': 'path', 'text': text, 'observed': repr(got), 'required': repr(want)})
         if mod is not None and ok and mod != got:
-            res.broke('correspondence:Path.parse', 'text=%r impl=%r model=%r' % (text, got, mod))
+            broke(res, 'correspondence:Path.parse', 'text=%r impl=%r model=%r' % (text, got, mod))
     if model is not None:
         out = common.run_model(eq_lines + child_lines)
         for (a, b, impl_eq), m in zip(eq_meta, out[:len(eq_lines)]):
             if m != ('1' if impl_eq else '0'):
-                res.broke('correspondence:Path.eq', 'a=%r b=%r impl=%r model=%s' % (a, b, impl_eq, m))
+                broke(res, 'correspondence:Path.eq', 'a=%r b=%r impl=%r model=%s' % (a, b, impl_eq, m))
         for (a, b, r), m in zip(child_meta, out[len(eq_lines):]):
             if m != ('1' if r else '0'):
-                res.broke('correspondence:Path.isChildPath', 'root=%r child=%r impl=%r model=%s' % (a, b, r, m))
+                broke(res, 'correspondence:Path.isChildPath', 'root=%r child=%r impl=%r model=%s' % (a, b, r, m))
     res.notes.setdefault('input_distribution', {})['grammar'] = dict(dist, literals=len(lit), equality_pairs=len(eq_lines),
                                                                      child_pairs=len(child_lines))
 
@@ -361,10 +374,11 @@ def run_maps(res, built):
             res.distinct(p)
             rule = None
             if n.is_composite():
-                if not p.endswith('/'):
-                    rule = 'composite-path-shape'
+                comps = p[1:].split('/')
+                if p.endswith('/') and got == ('ok', (False, comps[:-1], None, None, None, None), p[:-1], False):
+                    rule = 'composite-trailing-slash'     # printed as '<segment path>/': read as a loop path
                 elif got[0] != 'ok' or got[2] != p:
-                    rule = 'composite-trailing-slash'
+                    rule = 'composite-other'
             elif got[0] != 'ok':
                 rule = 'refused'
             elif got[1] != want:
@@ -395,7 +409,7 @@ def run_maps(res, built):
             mod = parse_model_path(o)
             got = seen[t]
             if mod != got:
-                res.broke('correspondence:Path.parse', 'map path=%r impl=%r model=%r' % (t, got, mod))
+                broke(res, 'correspondence:Path.parse', 'map path=%r impl=%r model=%r' % (t, got, mod))
     res.notes.setdefault('input_distribution', {})['maps'] = {'maps_loaded': len(loaded), 'maps_failed': failed, 'nodes': nnodes,
                                                               'distinct_paths': len(seen), 'by_rule': by_rule}
 
@@ -689,7 +703,7 @@ def run_histories(res, tier, built):
                         diff = 'op %d %r: impl=%r %r model=%r %r' % (i, h['ops'][i], out, after, mout, st)
                         break
             if diff is not None and ok:
-                res.broke('correspondence:Segment.get_value/set', 'segment=%r terms=%r %s' % (h['text'], h['terms'], diff))
+                broke(res, 'correspondence:Segment.get_value/set', 'segment=%r terms=%r %s' % (h['text'], h['terms'], diff))
     res.notes.setdefault('input_distribution', {})['histories'] = dist
 
 
@@ -737,11 +751,6 @@ def replay(d):
         from pyx12.path import X12Path
         v = X12Path(r['a']) == X12Path(r['b'])
         print('X12Path(%r) == X12Path(%r) -> %r (required %r)' % (r['a'], r['b'], v, r['required']))
-        return 0 if v == r['required'] else 1
-    if kind == 'child':
-        from pyx12.path import X12Path
-        v = [bool(X12Path(r['root']).is_child_path(r['child'])), bool(X12Path(r['child']).is_child_path(r['root']))]
-        print('is_child_path(%r, %r) -> %r (required %r)' % (r['root'], r['child'], v, r['required']))
         return 0 if v == r['required'] else 1
     if kind == 'history':
         h = r['history']
